@@ -251,3 +251,78 @@ MUTANTS = [
       "        return (sent_something, want_more_diversity)\n",
       "        rv = (sent_something, want_more_diversity)\n        return rv\n", None),
 ]
+
+HT = "src/allmydata/hashtree.py"
+GOT_SHARES = ("        self._shares.update(shares)\n        if self._active_segment:\n"
+              "            self._active_segment.add_shares(shares)\n")
+HANDOVER_FIRST = ("        if self._active_segment:\n            self._active_segment.add_shares(shares)\n"
+                  "        self._shares.update(shares)\n")
+ROLLBACK = ("        except (BadHashError, NotEnoughHashesError, IndexError):\n            for i in remove_upon_failure:\n"
+            "                self[i] = None\n            raise\n")
+CATCH = "        except (BadHashError, NotEnoughHashesError, IndexError):\n"
+DO_LOOP_GUARD = "        k = self._k\n        if not self._running:\n            return\n"
+
+MUTANTS += [
+    # ---- C03.9 a rejected hash chain leaves the node's shared trees unchanged (C03.9.1 / C03.9.2 adopted from C35)
+    M("hashtree-parent-not-journaled", HT,            # seeded C03-E
+      "                        remove_upon_failure.add(parentnum)\n", "", "C03.9"),
+    M("hashtree-handler-misses-not-enough-hashes", HT,
+      CATCH + "            for i in remove_upon_failure:", "        except BadHashError:\n            for i in remove_upon_failure:", "C03.9"),
+    M("hashtree-rollback-leaves-only", HT, ROLLBACK,
+      CATCH + "            for i in remove_upon_failure:\n                if i >= self.first_leaf_num:\n"
+      "                    self[i] = None\n            raise\n", "C03.9"),
+    M("hashtree-no-rollback", HT, ROLLBACK, CATCH + "            raise\n", "C03.9"),
+    M("hashtree-rollback-skipped-for-single-hash", HT, ROLLBACK,
+      CATCH + "            if len(remove_upon_failure) > 1:\n                for i in remove_upon_failure:\n"
+      "                    self[i] = None\n            raise\n", "C03.9"),
+    M("hashtree-journal-forgets-checked-node", HT,
+      "                    # our sibling is now as valid as this node\n                    this_level.discard(siblingnum)\n",
+      "                    # our sibling is now as valid as this node\n                    this_level.discard(siblingnum)\n"
+      "                    remove_upon_failure.discard(i)\n", "C03.9"),
+    M("benign-hashtree-handler-classes-reordered", HT,
+      CATCH + "            for i in remove_upon_failure:",
+      "        except (IndexError, NotEnoughHashesError, BadHashError):\n            for i in remove_upon_failure:", None),
+    M("benign-hashtree-rollback-loop-variable", HT, ROLLBACK,
+      CATCH + "            for added in remove_upon_failure:\n                self[added] = None\n            raise\n", None),
+    M("benign-hashtree-journal-cleared-when-accepted", HT,
+      "            # we're done!\n\n        except", "            # we're done!\n            remove_upon_failure.clear()\n\n        except", None),
+    M("benign-hashtree-parent-via-temporary", HT,
+      "                    parentnum = self.parent(i)\n", "                    p_ = self.parent(i)\n                    parentnum = p_\n", None),
+    # ---- C03.10 got_shares records the shares whatever happens to the hand-over to a (possibly stopped) fetcher
+    M("got-shares-handover-before-record", NODE, GOT_SHARES, HANDOVER_FIRST, "C03.10"),     # seeded C03-F
+    M("got-shares-handover-alias-before-record", NODE, GOT_SHARES,
+      "        fetcher = self._active_segment\n        if fetcher:\n            fetcher.add_shares(shares)\n"
+      "        self._shares.update(shares)\n", "C03.10"),
+    M("got-shares-handover-error-ends-call", NODE, GOT_SHARES,
+      "        try:\n            if self._active_segment:\n                self._active_segment.add_shares(shares)\n"
+      "        except AttributeError:\n            return\n        self._shares.update(shares)\n", "C03.10"),
+    M("got-shares-handover-wrong-handler", NODE, GOT_SHARES,
+      "        try:\n            if self._active_segment:\n                self._active_segment.add_shares(shares)\n"
+      "        except KeyError:\n            pass\n        self._shares.update(shares)\n", "C03.10"),
+    M("got-shares-handover-first-stop-clears-to-none", NODE, GOT_SHARES, HANDOVER_FIRST, "C03.10",
+      edits=[(FETCH, "            del self._shares, self._shares_from_server, self._active_share_map\n",
+              "            self._shares = None\n            del self._shares_from_server, self._active_share_map\n")]),
+    M("benign-got-shares-record-in-finally", NODE, GOT_SHARES,
+      "        try:\n            if self._active_segment:\n                self._active_segment.add_shares(shares)\n"
+      "        finally:\n            self._shares.update(shares)\n", None),
+    M("benign-got-shares-alias-record-first", NODE, GOT_SHARES,
+      "        fetcher = self._active_segment\n        self._shares.update(shares)\n        if fetcher is not None:\n"
+      "            fetcher.add_shares(shares)\n", None),
+    M("benign-got-shares-handover-first-stopped-fetcher-ignores", NODE, GOT_SHARES, HANDOVER_FIRST, None,
+      edits=[(FETCH, "        self._shares.extend(shares)\n",
+              "        if not self._running:\n            return\n        self._shares.extend(shares)\n")]),
+    M("benign-got-shares-handover-first-stop-keeps-list", NODE, GOT_SHARES, HANDOVER_FIRST, None,
+      edits=[(FETCH, "            del self._shares, self._shares_from_server, self._active_share_map\n",
+              "            del self._shares_from_server, self._active_share_map\n")]),
+    # ---- C03.11 the loop of a stopped fetcher does nothing
+    M("do-loop-runs-when-stopped", FETCH, DO_LOOP_GUARD, "        k = self._k\n", "C03.11"),
+    M("do-loop-guard-only-without-blocks", FETCH, DO_LOOP_GUARD,
+      "        k = self._k\n        if not self._running and not self._blocks:\n            return\n", "C03.11"),
+    M("do-loop-guard-after-segnum-check", FETCH, DO_LOOP_GUARD, "        k = self._k\n", "C03.11",
+      edits=[(FETCH, "        #print(\"LOOP\", self._blocks.keys(),", "        if not self._running:\n            return\n        #print(\"LOOP\", self._blocks.keys(),")]),
+    M("benign-do-loop-guard-in-loop", FETCH, DO_LOOP_GUARD, "        k = self._k\n", None,
+      edits=[(FETCH, "    def loop(self):\n        try:\n", "    def loop(self):\n        if not self._running:\n            return\n        try:\n")]),
+    M("benign-do-loop-guard-via-local", FETCH, DO_LOOP_GUARD,
+      "        k = self._k\n        running = self._running\n        if not running:\n            return\n", None),
+    M("vanish-fetcher-stop", FETCH, "    def stop(self):\n        if self._running:\n", "    def shutdown(self):\n        if self._running:\n", "ANALYSIS-ERROR"),
+]
